@@ -33,6 +33,9 @@ type eventSink struct {
 
 var curSink atomic.Pointer[eventSink]
 
+// eventHold: see the hook below.
+var eventHold atomic.Pointer[func(kind, cid string)]
+
 func init() {
 	if !raceEnabled {
 		service.VerifEventHook = func(kind string, id uint64, client bool, cid string, arg int) {
@@ -44,6 +47,11 @@ func init() {
 			s.evs = append(s.evs, svcEvent{kind, id, client, cid, arg})
 			s.cond.Broadcast()
 			s.mu.Unlock()
+			// a scenario may hold the goroutine that reports the event for a bounded time (a delay at a
+			// point where it holds no lock of the library, e.g. at the very beginning of a teardown)
+			if h := eventHold.Load(); h != nil {
+				(*h)(kind, cid)
+			}
 		}
 	}
 }
